@@ -160,6 +160,16 @@ FamC08(dummy) ==
      P \in {Build(Kind(FALSE, t, TRUE), "res", pr, StepC08, NoName, ExprInit, "none") : t \in BOOLEAN,
               pr \in IF Tier = "quick" THEN {<<1>>, <<1, 1>>, <<2, 1>>, <<1, 2, 2>>, <<3, 1, 2>>, <<2, 2, 2>>} ELSE Profiles(4, 2) \cup Profiles(3, 3)}}
 
+\* nesting: callbacks that evaluate a thread-spawning macro themselves (1..3 levels); the nested threads' names
+\* are checked by TraceExec.NestEv; the specification's own events are unaffected
+ItemN(id, op, form, n) == [id |-> id, op |-> op, form |-> form, reads |-> <<>>, nest |-> n]
+StepC08n(lv, b, k) == <<ItemN(IdOf(b, k, 1), "map", "closure", IF (b + k) % 2 = 0 THEN lv ELSE 0)>>
+FamC08n(dummy) ==
+  {Run([P EXCEPT !.caller = c], <<>>, {}) :
+     c \in {"named", "unnamed"},
+     P \in {LET S(b, k) == StepC08n(lv, b, k) IN Build(Kind(FALSE, t, TRUE), "res", pr, S, NoName, ExprInit, "none") :
+              t \in BOOLEAN, lv \in 1 .. 3, pr \in {<<1>>, <<1, 1>>, <<2, 1>>, <<1, 2, 2>>}}}
+
 \* ---- C09: async laziness / independence / wake-ups / completion.  Gates on initial futures, on
 \* and_then / or_else / then futures and on the handler future.
 StepC09(b, k) ==
@@ -314,6 +324,7 @@ Runs(dummy) ==
             [] Family = "C06h" -> FamC06h(0)
             [] Family = "C07" -> FamC07(0)
             [] Family = "C08" -> FamC08(0)
+            [] Family = "C08n" -> FamC08n(0)
             [] Family = "C09" -> FamC09(0)
             [] Family = "C10" -> FamC10(0)
             [] Family = "C11" -> FamC11(0)
